@@ -11,7 +11,7 @@ THEOREMS = ["Econf.C04_read_total", "Econf.C04_line_total", "Econf.C04_split_los
             "Leaf.ltrim_exec", "Leaf.rtrim_exec", "Leaf.trim_exec", "Leaf.toLowerCase_exec",
             "Leaf.stripbrackets_exec", "Leaf.C_trim", "Leaf.C_toLowerCase", "Leaf.C_stripbrackets", "Leaf.C_ltrim",
             "Leaf.check_delim_exec", "Leaf.hashstring_exec",
-            "Leaf.addbrackets_exec"]
+            "Leaf.addbrackets_exec", "Leaf.replace_str_exec", "Leaf.C_replace_str", "Leaf.replaceSpec_length"]
 # the string helpers whose C source is translated to MiniC on every run (memory safety for every input is a theorem about the translation)
 LEAF_FNS = ["stripbrackets", "addbrackets", "toLowerCase", "hashstring", "ltrim", "rtrim", "trim", "check_delim", "replace_str"]
 SHRINK = False
